@@ -477,7 +477,7 @@ def wide_range_models_bounded_instance():
         # concentrations: every slice draws its own decade
         bands = [(0.01, 1.0), (1.0, 30.0), (100.0, 500.0), (700.5, 708.0)]      # (exp overflows at 709.78)
         if fam == 'vmf':
-            bands = [(0.01, 1.0), (1.0, 30.0), (100.0, 500.0), (500.0, 690.0)]
+            bands = [(0.01, 1.0), (1.0, 30.0), (100.0, 500.0), (700.0, 5000.0)]          # (the exponentially scaled Bessel function has no upper limit)
         pick = rng.randint(0, len(bands), size=lead + ((2,) if fam == 'cwmm' else ()))
         pick.reshape(-1)[0] = len(bands) - 1
         pick.reshape(-1)[-1] = 0
